@@ -111,6 +111,7 @@ type fanoutObs struct {
 	events []EventObs
 	failed bool
 	logged []bool
+	preErr string
 }
 
 // execFanout runs one flush of the receiver pipeline for the given integrations (only[j] == false: integration j
@@ -155,7 +156,7 @@ func execFanout(t *testing.T, fc *FanoutCase, only []bool) fanoutObs {
 			st := notify.VerifCreateReceiverStage("team", pre, func() time.Duration { return 0 }, real, metrics, eventrecorder.NopRecorder())
 			ctx, cancel := flushCtx(t0, int64(time.Minute))
 			if _, _, err := st.Exec(ctx, promslog.NewNopLogger(), alerts...); err != nil {
-				t.Fatalf("pre-flush: %v", err)
+				o.preErr = err.Error()
 			}
 			cancel()
 		}
@@ -236,6 +237,9 @@ func runFanout(t *testing.T, c *Case) result {
 	// ---- direct oracle ----
 	viol := func(key, what string) {
 		res.viol = append(res.viol, vh.Violation{Key: key, What: what, Case: c})
+	}
+	if o.preErr != "" {
+		viol("fanout-always-ok-integration-fails", "a flush whose only integrations succeed at the first attempt failed: "+o.preErr)
 	}
 	anyFailed := false
 	for j, g := range fc.Integs {
